@@ -633,6 +633,11 @@ pub(crate) struct SubscriptionSender {
 
 impl SubscriptionSender {
 	fn send(&self, msg: Box<RawValue>) -> Result<(), TrySubscriptionSendError> {
+		// Once a message has been discarded nothing later is delivered, the stream must not skip messages.
+		if self.lagged.has_lagged() {
+			return Err(TrySubscriptionSendError::TooSlow(msg));
+		}
+
 		match self.inner.try_send(msg) {
 			Ok(_) => Ok(()),
 			Err(TrySendError::Closed(_)) => Err(TrySubscriptionSendError::Closed),
